@@ -173,6 +173,137 @@ theorem row_bounds {s : State} (h : Inv s) {c : Int} (vc : s.validCell c) (hp : 
       · have := congrArg s.x e; have := congrArg s.width e; omega
       · exact absurd nextl e
 
+/-! ### Part A': the linked representation and the list view `rowCells` agree -/
+
+/-- `Reach` with the number of links followed -/
+inductive ReachN (s : State) (c : Int) : Nat → Int → Prop
+  | zero : ReachN s c 0 c
+  | succ {k : Nat} {d : Int} : ReachN s c k d → s.next d ≠ -1 → ReachN s c (k + 1) (s.next d)
+
+theorem ReachN.reach {s : State} {c d : Int} {k : Nat} (r : ReachN s c k d) : Reach s c d := by
+  induction r with
+  | zero => exact Reach.refl
+  | succ _ hn ih => exact Reach.tail ih hn
+
+theorem Reach.reachN {s : State} {c d : Int} (r : Reach s c d) : ∃ k, ReachN s c k d := by
+  induction r with
+  | refl => exact ⟨0, ReachN.zero⟩
+  | tail _ hn ih => obtain ⟨k, hk⟩ := ih; exact ⟨k + 1, ReachN.succ hk hn⟩
+
+theorem ReachN.head_cases {s : State} {c d : Int} {k : Nat} (r : ReachN s c k d) :
+    (k = 0 ∧ d = c) ∨ (∃ k', k = k' + 1 ∧ s.next c ≠ -1 ∧ ReachN s (s.next c) k' d) := by
+  induction r with
+  | zero => exact Or.inl ⟨rfl, rfl⟩
+  | succ r hn ih =>
+    rename_i k d
+    right
+    rcases ih with ⟨e1, e2⟩ | ⟨k', e1, h1, h2⟩
+    · subst e1
+      rw [e2] at hn ⊢
+      exact ⟨0, rfl, hn, ReachN.zero⟩
+    · exact ⟨k' + 1, by omega, h1, ReachN.succ h2 hn⟩
+
+/-- every link followed passes at least one more cell of the row on the left -/
+theorem ReachN.rank_le {s : State} (h : Inv s) {c d : Int} {k : Nat} (hc : s.validCell c) (hp : s.row c ≠ -1)
+    (r : ReachN s c k d) : rank s (s.row c) (s.x c) + k ≤ rank s (s.row d) (s.x d) := by
+  induction r with
+  | zero => omega
+  | succ r hn ih =>
+    rename_i k d
+    obtain ⟨vd, rd, _⟩ := r.reach.order h hc hp
+    have L := h.link vd
+    unfold LinkOk at L
+    have hpd : s.row d ≠ -1 := by rw [rd]; exact hp
+    obtain ⟨_, rn, xn, _⟩ := (L.2.2 hpd).2.2.1 hn
+    have wd := h.placed_width vd hpd
+    have := rank_lt (s := s) (p := d) (c := s.next d) vd rn.symm (by omega)
+    omega
+
+theorem rank_lt_nCells {s : State} {d : Int} (vd : s.validCell d) : rank s (s.row d) (s.x d) < s.nCells := by
+  unfold rank
+  unfold validCell at vd
+  have h1 : (List.range s.nCells).countP (fun e : Nat => decide (s.row (e : Int) = s.row d ∧ s.x (e : Int) < s.x d))
+      < (List.range s.nCells).countP (fun _ => true) := by
+    apply countP_lt (a := d.toNat)
+    · intro _ _ _; rfl
+    · rw [List.mem_range]; omega
+    · rfl
+    · have e : ((d.toNat : Nat) : Int) = d := by omega
+      simp only [decide_eq_false_iff_not, e]
+      omega
+  have h2 : (List.range s.nCells).countP (fun _ => true) ≤ (List.range s.nCells).length := List.countP_le_length
+  simpa using Nat.lt_of_lt_of_le h1 h2
+
+theorem mem_chain {s : State} : ∀ (fuel : Nat) (c d : Int) (k : Nat), ReachN s c k d → k < fuel → c ≠ -1 →
+    d ∈ s.chain fuel c
+  | 0, _, _, _, _, hk, _ => by omega
+  | fuel + 1, c, d, k, r, hk, hc => by
+    simp only [State.chain, hc, if_false]
+    rcases r.head_cases with ⟨_, e⟩ | ⟨k', e, hn, r'⟩
+    · rw [e]; exact List.mem_cons_self
+    · exact List.mem_cons_of_mem _ (mem_chain fuel (s.next c) d k' r' (by omega) hn)
+
+theorem chain_sound {s : State} (h : Inv s) : ∀ (fuel : Nat) (c : Int), s.validCell c → s.row c ≠ -1 →
+    (∀ d ∈ s.chain fuel c, Reach s c d) ∧ (s.chain fuel c).Pairwise (fun a b => s.x a + s.width a ≤ s.x b)
+  | 0, _, _, _ => by simp [State.chain]
+  | fuel + 1, c, vc, hp => by
+    have hc : c ≠ -1 := by unfold validCell at vc; omega
+    simp only [State.chain, hc, if_false]
+    by_cases hn : s.next c = -1
+    · rw [hn, chain_neg]
+      exact ⟨fun d hd => by simp at hd; rw [hd]; exact Reach.refl, by simp⟩
+    · have L := h.link vc
+      unfold LinkOk at L
+      obtain ⟨vn, rn, xn, _⟩ := (L.2.2 hp).2.2.1 hn
+      have hpn : s.row (s.next c) ≠ -1 := by rw [rn]; exact hp
+      have wc := h.placed_width vc hp
+      obtain ⟨ih1, ih2⟩ := chain_sound h fuel (s.next c) vn hpn
+      have step : ∀ d, Reach s (s.next c) d → Reach s c d := by
+        intro d r
+        induction r with
+        | refl => exact Reach.tail Reach.refl hn
+        | tail _ hn' ih => exact Reach.tail ih hn'
+      constructor
+      · intro d hd
+        rcases List.mem_cons.mp hd with e | hd
+        · rw [e]; exact Reach.refl
+        · exact step d (ih1 d hd)
+      · refine List.pairwise_cons.mpr ⟨?_, ih2⟩
+        intro d hd
+        rcases ((ih1 d hd).order h vn hpn).2.2 with e | e
+        · rw [e]; exact xn
+        · have wn := h.placed_width vn hpn
+          omega
+
+/-- **`links_wf`: the list view of a row is exactly the linked cells of that row**, in increasing x
+without overlap: `rowCells r` (what `DetailedPlacement::rowCells` returns by following the `next`
+links from `rowFirstCell_[r]`) contains precisely the valid cells whose `cellRow_` is `r` -/
+theorem rowCells_spec {s : State} (h : Inv s) {r : Int} (hr : s.validRow r) :
+    (∀ c, c ∈ s.rowCells r ↔ (s.validCell c ∧ s.row c = r)) ∧
+    (s.rowCells r).Pairwise (fun a b => s.x a + s.width a ≤ s.x b) := by
+  have R := h.rowok hr
+  unfold RowOk at R
+  unfold rowCells
+  have hr1 : r ≠ -1 := by unfold validRow at hr; omega
+  by_cases hf : s.rowFirst r = -1
+  · rw [hf, chain_neg]
+    refine ⟨fun c => ⟨fun hc => by simp at hc, fun ⟨vc, rc⟩ => ?_⟩, by simp⟩
+    have := (reach_first h vc (by rw [rc]; exact hr1)).1
+    rw [rc, hf] at this
+    unfold validCell at this; omega
+  · obtain ⟨vf, _, rowf, _, _, _⟩ := R.2 hf
+    have hpf : s.row (s.rowFirst r) ≠ -1 := by rw [rowf]; exact hr1
+    obtain ⟨snd, pw⟩ := chain_sound h (s.nCells + 1) (s.rowFirst r) vf hpf
+    refine ⟨fun c => ⟨fun hc => ?_, fun ⟨vc, rc⟩ => ?_⟩, pw⟩
+    · obtain ⟨v, rr, _⟩ := (snd c hc).order h vf hpf
+      exact ⟨v, rr.trans rowf⟩
+    · have rf := (reach_first h vc (by rw [rc]; exact hr1)).2
+      rw [rc] at rf
+      obtain ⟨k, rk⟩ := rf.reachN
+      have h1 := rk.rank_le h vf hpf
+      have h2 := rank_lt_nCells (s := s) vc
+      exact mem_chain _ _ _ k rk (by omega) hf
+
 /-! ### Part B.1: what no move changes (rows, sizes, polarities, turn status) -/
 
 -- (sub-namespace: Proofs/OrientDetailed.lean has a different `Keep` for C04 in `ColoVerif.DetPlace`)
